@@ -85,12 +85,12 @@ Definition bad_solution_count (t : tx) : nat :=
 End Check.
 
 (* per-coin instances from the generated table *)
-Definition coin_limits (name : String.string) : option (Z * Z) :=
-  match find (fun '(n, _, _, _) => String.eqb n name) coin_table with
+Definition coin_limits (name : bytes) : option (Z * Z) :=
+  match find (fun '(n, _, _, _) => bytes_eqb n name) coin_table with
   | Some (_, mm, ms, _) => Some (mm, ms)
   | None => None
   end.
-Definition check_coin (name : String.string) (ids : list N) (t : tx) : outcome unit :=
+Definition check_coin (name : bytes) (ids : list N) (t : tx) : outcome unit :=
   match coin_limits name with
   | Some (mm, ms) => check mm ms ids t
   | None => Raise E_KEY
